@@ -1,10 +1,11 @@
 (* C04 - bound parameters reach the right placeholders in every paramstyle.
    Statements only; every proof is [exact <lemma>] or a computation on a concrete witness.
 
-   run tab lit empty ps inp   = the (statement tokens, parameters) pair handed to cursor.execute under paramstyle ps
+   run tab lit empty proc ps inp = the (statement tokens, parameters) pair handed to cursor.execute under paramstyle ps
    inline ps ts fp            = what a PEP-249 driver of that paramstyle makes of it (each placeholder replaced
                                 by the parameter it designates: next one / k-th / the one called so)
-   inline_spec lit empty inp  = the statement with every bind replaced by the value given for ITS name
+   inline_spec lit empty proc inp = the statement with every bind replaced by the value given for ITS name,
+                                converted once by ITS bind processor (proc p : the processor of a typed bind)
    guard tab inp              = escaped names of distinct binds are distinct, names created for expanding binds
                                 are new, literal_execute binds need no escaping, values have the bind's shape *)
 From Coq Require Import List NArith ZArith Bool.
@@ -14,17 +15,17 @@ From SAV.sql Require Import Params ParamsDict ParamsEscape ParamsGuard ParamsFin
 (* for every token list, bind order, classification, parameter dictionary (lists of any length, also empty,
    for expanding binds) and each of the six paramstyles: the driver substitutes, for every placeholder, the value
    of the bind that placeholder stands for *)
-Theorem c04_all_styles_guarded : forall tab lit empty ps inp, guard tab inp = true ->
-  exists ts fp sp, run tab lit empty ps inp = Ok (ts, fp) /\
-                   inline_spec lit empty inp = Some sp /\ inline ps ts fp = Some sp.
+Theorem c04_all_styles_guarded : forall tab lit empty proc ps inp, guard tab inp = true ->
+  exists ts fp sp, run tab lit empty proc ps inp = Ok (ts, fp) /\
+                   inline_spec lit empty proc inp = Some sp /\ inline ps ts fp = Some sp.
 Proof. exact all_styles. Qed.
 Print Assumptions c04_all_styles_guarded.
 
 (* qmark / format: the sequence handed to the driver is, in text order, the value of each bind; an expanding
    bind contributes its elements in order, a literal_execute bind nothing (expansion preserves order) *)
-Theorem c04_expand_preserves_order : forall tab lit empty ps inp, guard tab inp = true ->
+Theorem c04_expand_preserves_order : forall tab lit empty proc ps inp, guard tab inp = true ->
   positional ps = true -> numeric ps = false ->
-  exists ts, run tab lit empty ps inp = Ok (ts, FPos (flat_map (tok_vals inp) (i_toks inp))).
+  exists ts, run tab lit empty proc ps inp = Ok (ts, FPos (flat_map (tok_vals proc inp) (i_toks inp))).
 Proof. exact positional_sequence. Qed.
 Print Assumptions c04_expand_preserves_order.
 
@@ -79,7 +80,7 @@ Print Assumptions c04_escape_not_injective_refuted.
    placeholders, the positional styles fail the assertion of _process_positional / _process_numeric *)
 Theorem c04_escape_collision_refuted :
   guard sa_tab w_esc = false /\
-  inline_spec lit_dec empty0 w_esc = Some [Val 1; Ch 32; Ch 65; Ch 78; Ch 68; Ch 32; Val 2] /\
+  inline_spec lit_dec empty0 run_proc w_esc = Some [Val 1; Ch 32; Ch 65; Ch 78; Ch 68; Ch 32; Val 2] /\
   map (fun ps => delivered ps w_esc) [Named; Pyformat] =
     [Ok (Some [Val 2; Ch 32; Ch 65; Ch 78; Ch 68; Ch 32; Val 2]); Ok (Some [Val 2; Ch 32; Ch 65; Ch 78; Ch 68; Ch 32; Val 2])] /\
   map (fun ps => delivered ps w_esc) [Qmark; Format; Numeric; NumericDollar] =
@@ -91,7 +92,7 @@ Print Assumptions c04_escape_collision_refuted.
    deliver 1 to both placeholders (positiontup = [a.b, a.b]) *)
 Theorem c04_escape_collision_positional_refuted :
   guard sa_tab w_esc2 = false /\
-  inline_spec lit_dec empty0 w_esc2 = Some [Val 1; Ch 32; Ch 65; Ch 78; Ch 68; Ch 32; Val 2] /\
+  inline_spec lit_dec empty0 run_proc w_esc2 = Some [Val 1; Ch 32; Ch 65; Ch 78; Ch 68; Ch 32; Val 2] /\
   map (fun ps => delivered ps w_esc2) [Qmark; Format] =
     [Ok (Some [Val 1; Ch 32; Ch 65; Ch 78; Ch 68; Ch 32; Val 1]); Ok (Some [Val 1; Ch 32; Ch 65; Ch 78; Ch 68; Ch 32; Val 1])].
 Proof. vm_compute. repeat split; reflexivity. Qed.
@@ -101,7 +102,7 @@ Print Assumptions c04_escape_collision_positional_refuted.
    overwrites the value of the other bind: every paramstyle delivers 1 where 7 was meant *)
 Theorem c04_expanded_name_collision_refuted :
   guard sa_tab w_exp = false /\
-  exists pre, inline_spec lit_dec empty0 w_exp = Some (pre ++ [Val 7]) /\
+  exists pre, inline_spec lit_dec empty0 run_proc w_exp = Some (pre ++ [Val 7]) /\
               forall ps, delivered ps w_exp = Ok (Some (pre ++ [Val 1])).
 Proof.
   split; [vm_compute; reflexivity|].
@@ -122,7 +123,7 @@ Print Assumptions c04_literal_execute_escaped_name_refuted.
    so no driver can bind the statement *)
 Theorem c04_mixed_literal_execute_refuted :
   guard sa_tab w_mix = false /\
-  inline_spec lit_dec empty0 w_mix = Some [Val 3; Ch 32; Ch 65; Ch 78; Ch 68; Ch 32; Ch 51] /\
+  inline_spec lit_dec empty0 run_proc w_mix = Some [Val 3; Ch 32; Ch 65; Ch 78; Ch 68; Ch 32; Ch 51] /\
   (forall ps, numeric ps = false -> delivered ps w_mix = Ok None) /\
   (forall ps, numeric ps = true -> delivered ps w_mix = Ok (Some [Ch 32; Ch 65; Ch 78; Ch 68; Ch 32; Ch 51])).
 Proof.
@@ -131,21 +132,22 @@ Proof.
 Qed.
 Print Assumptions c04_mixed_literal_execute_refuted.
 
-(* ---- the hypotheses are satisfiable: a statement with an escaped name used twice, two expanding binds (one
-   empty), a literal_execute bind, a percent sign and the insertmanyvalues ordering of numeric ---- *)
+(* ---- the hypotheses are satisfiable: a statement with an escaped name used twice (typed: processor 1 sends
+   v to 10 v + 1), two expanding binds (one empty, the other typed with processor 2), a literal_execute bind, a
+   percent sign and the insertmanyvalues ordering of numeric ---- *)
 Example c04_ex_guard : guard sa_tab ex_good = true.
 Proof. vm_compute; reflexivity. Qed.
 Example c04_ex_numeric :
-  match run sa_tab lit_dec empty0 Numeric ex_good with
-  | Ok (ts, fp) => fp = FPos [PS 9; PS 4; PS 1; PS 2; PS 3] /\
+  match run sa_tab lit_dec empty0 run_proc Numeric ex_good with
+  | Ok (ts, fp) => fp = FPos [PS 9; PS 41; PS 12; PS 22; PS 32] /\
                    filter (fun t => match t with ONum _ => true | _ => false end) ts =
                    [ONum 2; ONum 3; ONum 4; ONum 5; ONum 1; ONum 2]
   | Raise _ => False
   end.
 Proof. vm_compute. split; reflexivity. Qed.
 Example c04_ex_qmark :
-  match run sa_tab lit_dec empty0 Qmark ex_good with
-  | Ok (ts, fp) => fp = FPos [PS 4; PS 1; PS 2; PS 3; PS 9; PS 4]
+  match run sa_tab lit_dec empty0 run_proc Qmark ex_good with
+  | Ok (ts, fp) => fp = FPos [PS 41; PS 12; PS 22; PS 32; PS 9; PS 41]
   | Raise _ => False
   end.
 Proof. vm_compute. reflexivity. Qed.
